@@ -125,6 +125,17 @@ Theorem C18_scalar_roundtrip : forall s ctx,
 Proof. exact scalar_roundtrip. Qed.
 Print Assumptions C18_scalar_roundtrip.
 
+(** The same inside a document: whatever may follow a scalar of the chosen style
+    (anything after a double-quoted scalar; anything that does not continue the
+    word after a plain one; after a literal block the end of the document, or
+    empty lines and then a line indented by less than the block) is left
+    untouched and the reader stands at it. *)
+Theorem C18_scalar_roundtrip_in_context : forall s ctx rest rest',
+  wf_scalar s -> wf_ctx ctx -> follows (ctx_li ctx) (scalar_fmt (ctx_flow ctx) s) rest rest' ->
+  load_scalar ctx (emit_scalar ctx s ++ rest) = Some (s, rest').
+Proof. exact scalar_roundtrip_in_context. Qed.
+Print Assumptions C18_scalar_roundtrip_in_context.
+
 Theorem C18_scalar_domain_inhabited :
   wf_scalar [] /\ wf_scalar [32; 97; 10]%N /\ wf_scalar [97; 10; 98; 10]%N /\ wf_scalar [110; 117; 108; 108]%N /\
   wf_scalar [228; 184; 173; 10]%N /\ wf_scalar [45; 32; 34; 92; 1]%N.
